@@ -4,6 +4,7 @@
 #include <cstdlib>
 #include <cstring>
 #include <string>
+#include <vector>
 
 #include "case.h"
 #include "stats.h"
@@ -14,6 +15,7 @@ namespace {
     RunStats g_stats;
     bool g_init = false;
     bool g_thorough = true;
+    std::vector<int> g_variants;
     Case const* g_current = nullptr;
 
     void flush_stats() { g_stats.write(); }
@@ -35,6 +37,15 @@ namespace {
         g_stats.engine = "libFuzzer";
         const char* tier = getenv( "CDSVERIF_TIER" );
         g_thorough = !tier || strcmp( tier, "quick" ) != 0;
+        if ( const char* vs = getenv( "CDSVERIF_VARIANTS" )) {
+            for ( const char* p = vs; *p; ) {
+                g_variants.push_back( atoi( p ));
+                while ( *p && *p != ',' )
+                    ++p;
+                if ( *p == ',' )
+                    ++p;
+            }
+        }
         set_abort_hook( abort_hook );
         atexit( flush_stats );
         g_init = true;
@@ -47,6 +58,10 @@ extern "C" int LLVMFuzzerTestOneInput( const uint8_t* data, size_t size )
         init();
     Schema const& s = harness_schema();
     Case c = from_bytes( data, size, s, g_thorough );
+    if ( !g_variants.empty())
+        c.variant = g_variants[size_t( c.variant ) % g_variants.size()];
+    if ( c.variant < 0 || size_t( c.variant ) >= s.variants.size())
+        c.variant = 0;
     bool any = false;
     for ( auto const& t : c.prog )
         any = any || !t.empty();
